@@ -44,6 +44,31 @@ Proof.
   - apply pair_eqb_spec in P. destruct P as [[<- <-]|[<- <-]]; assumption.
 Qed.
 
+(** the same facts as a proposition about the two lookups (so that they transfer between graphs with equal
+    lookups, e.g. from the centre to the centre of the centre) *)
+Definition node_okP (a : natt) : Prop :=
+  exists e ar h q ar' h' q', a_tgh a = Some ((e, ar, h, q), (e, ar', h', q')) /\ a_el a = Some e /\ a_ch a = Some q /\ elem_str e.
+Definition edge_okP (c : gr) (u v : N) (x : eatt) : Prop :=
+  exists a b, x = EA (Some (OP a b)) (Some (a - b)) /\ ord_ok a = true /\ ord_ok b = true /\ (a <> 0 \/ b <> 0) /\
+              has_node c u = true /\ has_node c v = true.
+Definition IOK (c : gr) : Prop :=
+  gwf c /\ (forall n a, label c n = Some a -> node_okP a) /\ (forall u v x, adj c u v = Some x -> edge_okP c u v x).
+Lemma its_ok_IOK c : its_ok c = true -> IOK c.
+Proof.
+  intros H. split; [apply its_ok_gwf; exact H|split].
+  - intros n a L. apply (its_ok_node c n a H L).
+  - intros u v x A. apply (its_ok_edge c u v x H A).
+Qed.
+Lemma iok_gwf c : IOK c -> gwf c.
+Proof. intros H. apply H. Qed.
+Lemma iok_node c n a : IOK c -> label c n = Some a ->
+  exists e ar h q ar' h' q', a_tgh a = Some ((e, ar, h, q), (e, ar', h', q')) /\ a_el a = Some e /\ a_ch a = Some q /\ elem_str e.
+Proof. intros H L. apply (proj1 (proj2 H) n a L). Qed.
+Lemma iok_edge c u v x : IOK c -> adj c u v = Some x ->
+  exists a b, x = EA (Some (OP a b)) (Some (a - b)) /\ ord_ok a = true /\ ord_ok b = true /\ (a <> 0 \/ b <> 0) /\
+              has_node c u = true /\ has_node c v = true.
+Proof. intros H A. apply (proj2 (proj2 H) u v x A). Qed.
+
 (** ** its_decompose *)
 Definition dn1 (T : natt -> tg) (p : N * natt) : natt := side_att (T (snd p)) (fst p).
 Definition dd (c : gr) (j : bool) (u v : N) : option eatt :=
@@ -60,22 +85,22 @@ Definition side_nodes (c : gr) (T : natt -> tg) : gr := fold_left (nstep (dn1 T)
 Definition side_graph (c : gr) (j : bool) : gr :=
   fold_left (estep (dd c j)) (map pr (edges_iter c)) (side_nodes c (if j then tH_of else tG_of)).
 
-Lemma its_decompose_sides c : its_ok c = true -> its_decompose c = (side_graph c false, side_graph c true).
+Lemma its_decompose_sides c : IOK c -> its_decompose c = (side_graph c false, side_graph c true).
 Proof.
-  intros Hok. pose proof (its_ok_gwf c Hok) as W. unfold its_decompose.
+  intros Hok. pose proof (iok_gwf c Hok) as W. unfold its_decompose.
   assert (dec_nodes c (g_empty, g_empty) = (side_nodes c tG_of, side_nodes c tH_of)) as ->.
   { unfold dec_nodes, side_nodes.
     rewrite (fold_left_ext_in _ (fun acc p => (nstep (dn1 tG_of) (fst acc) p, nstep (dn1 tH_of) (snd acc) p))).
     - apply (fold_pair_fst (nstep (dn1 tG_of)) (nstep (dn1 tH_of)) (gnodes c) (g_empty, g_empty)).
     - intros acc [n a] Hin. apply (assoc_nodup_in n (gnodes c) a (gwf_nd c W)) in Hin.
-      destruct (its_ok_node c n a Hok Hin) as (e & ar & h & q & ar' & h' & q' & Ht & _).
+      destruct (iok_node c n a Hok Hin) as (e & ar & h & q & ar' & h' & q' & Ht & _).
       unfold nstep, dn1, tG_of, tH_of. simpl. rewrite Ht. reflexivity. }
   unfold dec_edges, side_graph.
   rewrite (fold_left_ext_in _ (fun acc e => (estep (dd c false) (fst acc) (pr e), estep (dd c true) (snd acc) (pr e)))).
   - rewrite (fold_pair_fst (fun a e => estep (dd c false) a (pr e)) (fun a e => estep (dd c true) a (pr e))).
     simpl. rewrite !fold_left_map'. reflexivity.
   - intros acc [[u v] x] Hin. pose proof (edges_iter_data c u v x W Hin) as A.
-    destruct (its_ok_edge c u v x Hok A) as (a & b & -> & _).
+    destruct (iok_edge c u v x Hok A) as (a & b & -> & _).
     unfold estep, dd, pr. simpl. rewrite A. simpl. destruct acc as [g1 g2]. simpl.
     destruct (0 <? a); destruct (0 <? b); reflexivity.
 Qed.
@@ -92,25 +117,25 @@ Proof. unfold side_nodes. rewrite fold_nstep_gedges. reflexivity. Qed.
 Lemma pmatch_map_pr u v l : pmatch u v (map pr l) = has_pair u v l.
 Proof. unfold pmatch, has_pair. induction l as [|e r IH]; [reflexivity|]. simpl. rewrite IH. reflexivity. Qed.
 
-Lemma side_graph_gnodes c j : its_ok c = true ->
+Lemma side_graph_gnodes c j : IOK c ->
   gnodes (side_graph c j) = gnodes (side_nodes c (if j then tH_of else tG_of)).
 Proof.
-  intros Hok. pose proof (its_ok_gwf c Hok) as W. unfold side_graph. apply fold_estep_node_ids.
+  intros Hok. pose proof (iok_gwf c Hok) as W. unfold side_graph. apply fold_estep_node_ids.
   intros e He. apply in_map_iff in He. destruct He as ([[u v] x] & <- & Hin). simpl.
-  pose proof (edges_iter_data c u v x W Hin) as A. destruct (its_ok_edge c u v x Hok A) as (a & b & _ & _ & _ & _ & Hu & Hv).
+  pose proof (edges_iter_data c u v x W Hin) as A. destruct (iok_edge c u v x Hok A) as (a & b & _ & _ & _ & _ & Hu & Hv).
   apply has_node_label in Hu, Hv. destruct Hu as [au Hu]. destruct Hv as [av Hv].
   split; apply has_node_label; rewrite side_nodes_label by exact W; [rewrite Hu|rewrite Hv]; simpl; eauto.
 Qed.
-Lemma side_graph_label c j n : its_ok c = true ->
+Lemma side_graph_label c j n : IOK c ->
   label (side_graph c j) n = option_map (fun a => side_att ((if j then tH_of else tG_of) a) n) (label c n).
 Proof.
-  intros Hok. unfold label at 1. rewrite side_graph_gnodes by exact Hok. apply side_nodes_label. apply its_ok_gwf. exact Hok.
+  intros Hok. unfold label at 1. rewrite side_graph_gnodes by exact Hok. apply side_nodes_label. apply iok_gwf. exact Hok.
 Qed.
 Lemma side_graph_gwf c j : gwf (side_graph c j).
 Proof. unfold side_graph. apply fold_estep_gwf. unfold side_nodes. apply fold_nstep_gwf. apply gwf_empty. Qed.
-Lemma side_graph_adj c j u v : its_ok c = true -> adj (side_graph c j) u v = dd c j u v.
+Lemma side_graph_adj c j u v : IOK c -> adj (side_graph c j) u v = dd c j u v.
 Proof.
-  intros Hok. pose proof (its_ok_gwf c Hok) as W. unfold side_graph.
+  intros Hok. pose proof (iok_gwf c Hok) as W. unfold side_graph.
   rewrite (fold_estep_adj (dd c j) (dd_sym c j)).
   - rewrite pmatch_map_pr, has_pair_edges_iter by exact W. unfold adj at 2. rewrite side_nodes_gedges. simpl.
     unfold dd. destruct (adj c u v); reflexivity.
@@ -279,7 +304,7 @@ Definition T_of (j : bool) : natt -> tg := if j then tH_of else tG_of.
 Definition lftg (c : gr) (j : bool) (ch : list N) : gr := parse_r (rev (side_entries (side_graph c j) ch)).
 Definition sideS (c : gr) (j : bool) (ch : list N) : gr := sync_side (ctxg c ch) (lftg c j ch).
 
-Lemma lft_gn c j ch n : its_ok c = true ->
+Lemma lft_gn c j ch n : IOK c ->
   gn_find n (rev (side_entries (side_graph c j) ch)) =
   match label c n with Some a => if mem n ch then Some (node_label (side_att (T_of j a) n)) else None | None => None end.
 Proof.
@@ -290,12 +315,12 @@ Proof.
   destruct (label c n); simpl; [destruct (mem n ch)|]; reflexivity.
 Qed.
 
-Lemma sideS_label c j ch n : its_ok c = true ->
+Lemma sideS_label c j ch n : IOK c ->
   (forall a, label c n = Some a -> elem_str (tg_el (T_of j a))) ->
   (forall a, label c n = Some a -> mem n ch = false -> a_el a = Some (tg_el (T_of j a)) /\ a_ch a = Some (tg_ch (T_of j a))) ->
   label (sideS c j ch) n = option_map (fun a => gnode_att n (tg_el (T_of j a)) (tg_ch (T_of j a))) (label c n).
 Proof.
-  intros Hok Hel HT. pose proof (its_ok_gwf c Hok) as W. unfold sideS.
+  intros Hok Hel HT. pose proof (iok_gwf c Hok) as W. unfold sideS.
   rewrite sync_label by (try apply parse_gwf; apply ctx_gedges). rewrite ctx_label by exact W.
   unfold lftg. rewrite parse_label, lft_gn by exact Hok.
   destruct (label c n) as [a|] eqn:L; simpl.
@@ -311,7 +336,7 @@ Proof.
     rewrite side_graph_label, L in Hb by exact Hok. discriminate.
 Qed.
 
-Lemma sideS_adj c j ch u v : its_ok c = true ->
+Lemma sideS_adj c j ch u v : IOK c ->
   adj (sideS c j ch) u v = option_map (fun x => edge_att (order_label_any (e_ord x) 2)) (dd c j u v).
 Proof.
   intros Hok. unfold sideS. rewrite sync_adj by apply ctx_gedges. unfold lftg. rewrite parse_adj.
@@ -325,21 +350,21 @@ Lemma ord_ok_cases o : ord_ok o = true -> o = 0 \/ o = 2 \/ o = 3 \/ o = 4 \/ o 
 Proof. unfold ord_ok. rewrite !orb_true_iff, !Z.eqb_eq. tauto. Qed.
 
 (** before/after order of a pair as the synchronised side graph carries it *)
-Lemma sideS_scal c (j : bool) ch u v x : its_ok c = true -> adj c u v = Some x ->
+Lemma sideS_scal c (j : bool) ch u v x : IOK c -> adj c u v = Some x ->
   let o := if j then snd (ord_of x) else fst (ord_of x) in
   scal_order (sideS c j ch) u v = o /\ is_some (adj (sideS c j ch) u v) = (0 <? o).
 Proof.
-  intros Hok A. destruct (its_ok_edge c u v x Hok A) as (a & b & -> & Oa & Ob & _).
+  intros Hok A. destruct (iok_edge c u v x Hok A) as (a & b & -> & Oa & Ob & _).
   unfold scal_order. rewrite sideS_adj by exact Hok. unfold dd. rewrite A. unfold ord_of. simpl.
   destruct j; simpl.
   - destruct (ord_ok_cases b Ob) as [->|[->|[->|[->| ->]]]]; simpl; auto.
   - destruct (ord_ok_cases a Oa) as [->|[->|[->|[->| ->]]]]; simpl; auto.
 Qed.
-Lemma sideS_adj_none c j ch u v : its_ok c = true -> adj c u v = None -> adj (sideS c j ch) u v = None.
+Lemma sideS_adj_none c j ch u v : IOK c -> adj c u v = None -> adj (sideS c j ch) u v = None.
 Proof. intros Hok A. rewrite sideS_adj by exact Hok. unfold dd. rewrite A. reflexivity. Qed.
 
 (** ** the round trip *)
-Lemma its_to_gml_rec c : its_ok c = true ->
+Lemma its_to_gml_rec c : IOK c ->
   its_to_gml c false false false =
   let ch := find_changed (side_graph c false) (side_graph c true) in
   [(SLeft, side_entries (side_graph c false) ch); (SContext, context_entries c ch false);
@@ -349,21 +374,21 @@ Proof. intros Hok. unfold its_to_gml. rewrite its_decompose_sides by exact Hok. 
 Lemma a_ch_side t n : a_ch (side_att t n) = Some (tg_ch t).
 Proof. destruct t as [[[e a] h] q]. reflexivity. Qed.
 
-Lemma chg_mem c n a : its_ok c = true -> label c n = Some a ->
+Lemma chg_mem c n a : IOK c -> label c n = Some a ->
   mem n (find_changed (side_graph c false) (side_graph c true)) = negb (tg_ch (tG_of a) =? tg_ch (tH_of a)).
 Proof.
   intros Hok L. rewrite mem_find_changed by apply (gwf_nd _ (side_graph_gwf c false)).
   rewrite !side_graph_label by exact Hok. rewrite L. simpl. unfold cheq. rewrite !a_ch_side. reflexivity.
 Qed.
 
-Theorem gml_roundtrip c : its_ok c = true ->
+Theorem gml_roundtrip_iok c : IOK c ->
   let I' := gml_to_its (its_to_gml c false false false) in
   (forall n, has_node I' n = has_node c n) /\
   (forall n a, label c n = Some a ->
      label I' n = Some (gml_node n (tg_el (tG_of a)) (tg_ch (tG_of a)) (tg_ch (tH_of a)))) /\
   (forall u v, adj I' u v = adj c u v).
 Proof.
-  intros Hok I'. pose proof (its_ok_gwf c Hok) as W.
+  intros Hok I'. pose proof (iok_gwf c Hok) as W.
   set (ch := find_changed (side_graph c false) (side_graph c true)).
   assert (I' = its_construct (sideS c false ch) (sideS c true ch) (union_pairs (sideS c false ch) (sideS c true ch))) as EI.
   { unfold I', gml_to_its. rewrite its_to_gml_rec by exact Hok. cbv zeta. fold ch. rewrite gml_to_nx_three. reflexivity. }
@@ -371,20 +396,20 @@ Proof.
   assert (forall n, label (sideS c false ch) n =
                     option_map (fun a => gnode_att n (tg_el (tG_of a)) (tg_ch (tG_of a))) (label c n)) as HL.
   { intros n. apply (sideS_label c false ch n Hok).
-    - intros a L. destruct (its_ok_node c n a Hok L) as (e & ar & h & q & ar' & h' & q' & Ht & _ & _ & He).
+    - intros a L. destruct (iok_node c n a Hok L) as (e & ar & h & q & ar' & h' & q' & Ht & _ & _ & He).
       unfold T_of, tG_of. rewrite Ht. exact He.
-    - intros a L _. destruct (its_ok_node c n a Hok L) as (e & ar & h & q & ar' & h' & q' & Ht & E1 & E2 & _).
+    - intros a L _. destruct (iok_node c n a Hok L) as (e & ar & h & q & ar' & h' & q' & Ht & E1 & E2 & _).
       unfold T_of, tG_of. rewrite Ht. simpl. auto. }
   assert (forall n, label (sideS c true ch) n =
                     option_map (fun a => gnode_att n (tg_el (tG_of a)) (tg_ch (tH_of a))) (label c n)) as HR.
   { intros n. rewrite (sideS_label c true ch n Hok).
     - destruct (label c n) as [a|] eqn:L; [|reflexivity]. simpl.
-      destruct (its_ok_node c n a Hok L) as (e & ar & h & q & ar' & h' & q' & Ht & _).
+      destruct (iok_node c n a Hok L) as (e & ar & h & q & ar' & h' & q' & Ht & _).
       unfold T_of, tG_of, tH_of. rewrite Ht. reflexivity.
-    - intros a L. destruct (its_ok_node c n a Hok L) as (e & ar & h & q & ar' & h' & q' & Ht & _ & _ & He).
+    - intros a L. destruct (iok_node c n a Hok L) as (e & ar & h & q & ar' & h' & q' & Ht & _ & _ & He).
       unfold T_of, tH_of. rewrite Ht. exact He.
     - intros a L M. unfold ch in M. rewrite (chg_mem c n a Hok L) in M. apply negb_false_iff, Z.eqb_eq in M.
-      destruct (its_ok_node c n a Hok L) as (e & ar & h & q & ar' & h' & q' & Ht & E1 & E2 & _).
+      destruct (iok_node c n a Hok L) as (e & ar & h & q & ar' & h' & q' & Ht & E1 & E2 & _).
       unfold T_of, tG_of, tH_of in *. rewrite Ht in *. simpl in *. subst q'. auto. }
   (* R2 *)
   assert (forall n a, label c n = Some a ->
@@ -398,7 +423,7 @@ Proof.
   { intros u v. rewrite EI, its_construct_adj. destruct (adj c u v) as [x|] eqn:A.
     - destruct (sideS_scal c false ch u v x Hok A) as [S1 I1]. destruct (sideS_scal c true ch u v x Hok A) as [S2 I2].
       cbv zeta in *. unfold its_d. rewrite S1, S2, I1, I2.
-      destruct (its_ok_edge c u v x Hok A) as (a & b & -> & Oa & Ob & Hne & _). unfold ord_of. simpl.
+      destruct (iok_edge c u v x Hok A) as (a & b & -> & Oa & Ob & Hne & _). unfold ord_of. simpl.
       destruct (ord_ok_cases a Oa) as [->|[->|[->|[->| ->]]]]; destruct (ord_ok_cases b Ob) as [->|[->|[->|[->| ->]]]];
         simpl; try reflexivity. exfalso. destruct Hne; congruence.
     - rewrite !sideS_adj_none by assumption. reflexivity. }
@@ -408,10 +433,19 @@ Proof.
     + apply has_node_label in H. destruct H as [b Hb]. rewrite HL in Hb. unfold has_node. destruct (label c n); [reflexivity|discriminate].
     + apply has_node_label in H. destruct H as [b Hb]. rewrite HR in Hb. unfold has_node. destruct (label c n); [reflexivity|discriminate].
     + destruct (adj c n w) as [x|] eqn:A.
-      * destruct (its_ok_edge c n w x Hok A) as (a & b & _ & _ & _ & _ & Hn & _). exact Hn.
+      * destruct (iok_edge c n w x Hok A) as (a & b & _ & _ & _ & _ & Hn & _). exact Hn.
       * rewrite !sideS_adj_none in H by assumption. destruct H; discriminate.
   - intros H. apply has_node_label in H. destruct H as [a La]. apply has_node_label. eexists. apply (R2 n a La).
 Qed.
+
+
+Theorem gml_roundtrip c : its_ok c = true ->
+  let I' := gml_to_its (its_to_gml c false false false) in
+  (forall n, has_node I' n = has_node c n) /\
+  (forall n a, label c n = Some a ->
+     label I' n = Some (gml_node n (tg_el (tG_of a)) (tg_ch (tG_of a)) (tg_ch (tH_of a)))) /\
+  (forall u v, adj I' u v = adj c u v).
+Proof. intros H. apply gml_roundtrip_iok, its_ok_IOK, H. Qed.
 
 (** ** non-vacuity: a centre with a broken, a formed and a weakened bond and two charge changes *)
 Local Open Scope string_scope.
